@@ -185,8 +185,8 @@ func checkC18(w *rcWorld, out *Outcome, root context.Context, reason string) {
 // heldFrames counts the complete request frames sitting in the socket
 // buffers of a stalled server.
 func (c *Conn) heldFrames() int {
-	c.mu.Lock()
-	defer c.mu.Unlock()
+	c.lock()
+	defer c.unlock()
 	rest, hello := c.SC.Parser.Unparsed()
 	if !hello {
 		return 0
